@@ -298,6 +298,35 @@ def check(idx, run):
               "the inference no longer looks at every signature accessed "
               "in the region", loc(mod, ifunc))
     # the legacy gen_code path uses the same inference
+    # the 'sequential' option switches the dependence analysis off: it may
+    # only be honoured by transformations whose directive can mark the loop
+    # as sequential (OpenACC 'seq'), never by the OpenMP ones
+    from rules.common_parallel import PLT
+    base = idx.get_class(PLT)
+    vtxt = " ".join(ast.unparse(base.methods["validate"]).split())
+    run.check("C09.R1", "sequential and (not self._supports_sequential)" in
+              vtxt or "sequential and not self._supports_sequential" in vtxt,
+              "ParallelLoopTrans.validate",
+              "'sequential' is refused where it is not supported",
+              "the 'sequential' option is honoured (dependence analysis "
+              "skipped) whatever the transformation: "
+              "OMPParallelLoopTrans().apply(loop, {'sequential': True}) "
+              "parallelises a loop with a loop-carried dependence",
+              loc(base.module, base.methods["validate"]))
+    nomp = 0
+    for sub in idx.all_subclasses(base, include_self=False):
+        if not sub.name.startswith("OMP") and "OMP" not in sub.name:
+            continue
+        nomp += 1
+        res = idx.find_attr(sub, "_supports_sequential")
+        val = res[1] if res else None
+        got = ast.unparse(val) if isinstance(val, ast.AST) else repr(val)
+        run.check("C09.R1", got == "False", sub.name,
+                  "does not support the 'sequential' option",
+                  f"{sub.name}._supports_sequential resolves to {got}: the "
+                  f"option would switch the dependence analysis off for an "
+                  f"OpenMP work-sharing directive", loc(sub.module, sub.node))
+    run.floor("OpenMP parallel-loop transformations", nomp, 6)
     check_inference_table(idx, run, cls)
     check_written_once(idx, run, cls)
     gfunc = cls.methods.get("gen_code")
